@@ -1540,7 +1540,7 @@ void OPNMIDIplay::panic()
     for(size_t chan = 0; chan < m_midiChannels.size(); chan++)
     {
         for(uint8_t note = 0; note < 128; note++)
-            noteOff(chan, note);
+            noteOff(chan, note, true); // Right now: a deferred key-off of a short drum note would outlive the panic
     }
 }
 
